@@ -162,6 +162,15 @@ var parseTemplatesEntrySpec = &decideSpec{
 	ignore:   []string{"log"},
 }
 
+// Config.ParseTemplates: one iteration of the outer loop (one round), trace mode
+var parseTemplatesRoundSpec = &decideSpec{
+	file: "config/config.go", recv: "Config", fn: "ParseTemplates", lean: "parseTemplatesRoundEffects", plain: true, loopBody: true,
+	params: "(capReached : Bool)", result: "List String",
+	atoms:  map[string]string{"i >= 20": "capReached", "ErrInfiniteLoop": "[\"error: infinite loop\"]"},
+	trace:  map[string]string{"changesMade = false": "changesMade := false"},
+	ignore: []string{"log", "l"},
+}
+
 // ---- mergeStringMaps ----
 
 type mapTr struct {
@@ -313,7 +322,7 @@ func init() {
 			g = fmt.Sprintf("/-- translation failed: %s -/\ndef getReplacement : Nat := (show Nat from %s)\n", strings.ReplaceAll(err.Error(), "-/", "- /"), leanStr(err.Error()))
 		}
 		b.WriteString(g + "\n")
-		for _, sp := range []*decideSpec{ifaceInitSpec, ifaceInitEntrySpec, pkgInitEntrySpec, rootInitEntrySpec, rootInjectEntrySpec, parseTemplatesEntrySpec} {
+		for _, sp := range []*decideSpec{ifaceInitSpec, ifaceInitEntrySpec, pkgInitEntrySpec, rootInitEntrySpec, rootInjectEntrySpec, parseTemplatesEntrySpec, parseTemplatesRoundSpec} {
 			d, err := translateDecide(src, sp)
 			if err != nil {
 				d = fmt.Sprintf("/-- translation failed: %s -/\ndef %s %s : %s :=\n  (show Nat from %s)\n", strings.ReplaceAll(err.Error(), "-/", "- /"), sp.lean, sp.params, sp.result, leanStr(err.Error()))
